@@ -517,6 +517,8 @@ def _r086_family(ctx, m, ci, mi, fn, site, code, tables, p, fam, rx, ry, rz) -> 
 
     base = {'I': Poly.const(1) - p, 'X': rx * p, 'Y': ry * p, 'Z': rz * p}
     v, hooks = run('A', {'deformation_axis': 'x'})
+    if 'TOP' in repr(v):
+        raise AnalysisError('R08.6', site, f'{fam}: deformed distribution not tracked by the analysis ({v!r})')
     ok = isinstance(v, tuple) and len(v) == 4 and all(isinstance(a, np.ndarray) and a.shape == (3,) for a in v)
     detail = ''
     got = None
@@ -543,6 +545,8 @@ def _r086_family(ctx, m, ci, mi, fn, site, code, tables, p, fam, rx, ry, rz) -> 
                f'get_deformation calls: {hooks.calls!r}', key='PauliErrorModel.probability_distribution|table-args',
                facts=[repr(c) for c in hooks.calls])
     v, hooks = run(None, None)
+    if 'TOP' in repr(v):
+        raise AnalysisError('R08.6', site, f'{fam}: undeformed distribution not tracked by the analysis ({v!r})')
     ok = isinstance(v, tuple) and len(v) == 4 and all(isinstance(a, np.ndarray) for a in v) and not hooks.calls
     if ok:
         for P, arr in zip('IXYZ', v):
